@@ -239,7 +239,14 @@ impl Prop for C02 {
     }
     fn run(&self, seed: u64, index: u64, _tier: Tier, stats: &mut Stats) -> Vec<Violation> {
         let mut rng = Rng::new(seed);
-        let params = GraphParams::stratified(index % GraphParams::STRATA, &mut rng);
+        let mut params = GraphParams::stratified(index % GraphParams::STRATA, &mut rng);
+        if index % 53 == 7 {
+            // a long chain of nested loads (33-48 files deep): depth is not a cycle
+            params.nfiles = 33 + rng.usize(16);
+            params.chain = true;
+            params.density_q = 0;
+            stats.inc("probe:deep_chain");
+        }
         let spec = gen_graph(&params, &mut rng);
         let chunk = if rng.chance(1, 3) { Chunking::draw(&mut rng) } else { Chunking::NONE };
         let case = Case { spec, chunk };
